@@ -359,8 +359,15 @@ def r3_read(ctx, repo, cls):
                     ctx.violated("R3", "SqliteDataStore(sql)", where(mod, cls.node),
                                  "table `%s` is WITHOUT ROWID and is read without ORDER BY: rows come back in primary-key (name) order, not in declaration order, "
                                  "so the restored %s definitions no longer line up with the positions of vector / costs" % (tname, tname), key="row-order:" + tname)
-    rebuild = [c for c in calls_in(fn) if (access_path(c.func) or "").endswith("Individual.from_dict")]
-    ok = bool(rebuild) and text(rebuild[0].args[0]).startswith("json.loads(") and any(
+    rebuild = []
+    TR_ = Terms(fn)
+    for s_ in stmts_of(fn):
+        if isinstance(s_, (ast.For, ast.While, ast.If, ast.Try, ast.With)):
+            continue
+        for c in calls_in(s_):
+            if (access_path(c.func) or "").endswith("Individual.from_dict") and c.args:
+                rebuild.append(TR_.expand(c.args[0], at=s_))
+    ok = bool(rebuild) and text(rebuild[0]).startswith("json.loads(") and any(
         (access_path(c.func) or "").endswith(".problem.individuals.append") for c in calls_in(fn))
     ctx.check3(True if ok else None, "R3", C, where(mod, fn), "individuals rebuilt through Individual.from_dict(json.loads(payload)) and appended to problem.individuals",
                unknown_detail="reconstruction of the individuals not recognised", key="rebuild")
